@@ -268,6 +268,8 @@ trait Tw: Field + CyclotomicMultSubgroup {
     fn norm_s(&self) -> String;
     fn mulbase(&self, e: &Self::Base) -> Self;
     fn conj(&self) -> Option<Self>;
+    /// the overridable non-residue hooks of the config, called directly: (op name, result)
+    fn hooks(y: &Self::Base, x: &Self::Base) -> Vec<(&'static str, bool, Self::Base)>;
 }
 impl<P: QuadExtConfig> Tw for QuadExtField<P>
 where
@@ -277,6 +279,13 @@ where
     fn norm_s(&self) -> String { let s = *self; guarded(move || es(&s.norm())) }
     fn mulbase(&self, e: &Self::Base) -> Self { let mut r = *self; r.mul_assign_by_basefield(e); r }
     fn conj(&self) -> Option<Self> { let mut r = *self; r.conjugate_in_place(); Some(r) }
+    fn hooks(y: &Self::Base, x: &Self::Base) -> Vec<(&'static str, bool, Self::Base)> {
+        let mut a = *y; P::mul_base_field_by_nonresidue_in_place(&mut a);
+        let mut b = *y; P::mul_base_field_by_nonresidue_and_add(&mut b, x);
+        let mut c = *y; P::mul_base_field_by_nonresidue_plus_one_and_add(&mut c, x);
+        let mut d = *y; P::sub_and_mul_base_field_by_nonresidue(&mut d, x);
+        vec![("hnr", false, a), ("hnradd", true, b), ("hnrp1", true, c), ("hsub", true, d)]
+    }
 }
 impl<P: CubicExtConfig> Tw for CubicExtField<P>
 where
@@ -286,6 +295,10 @@ where
     fn norm_s(&self) -> String { let s = *self; guarded(move || es(&s.norm())) }
     fn mulbase(&self, e: &Self::Base) -> Self { let mut r = *self; r.mul_assign_by_base_field(e); r }
     fn conj(&self) -> Option<Self> { None }
+    fn hooks(y: &Self::Base, _x: &Self::Base) -> Vec<(&'static str, bool, Self::Base)> {
+        let mut a = *y; P::mul_base_field_by_nonresidue_in_place(&mut a);
+        vec![("hnr", false, a), ("hnr", false, P::mul_base_field_by_nonresidue(*y))]
+    }
 }
 
 struct Plan {
@@ -374,6 +387,14 @@ fn common<F: Tw>(id: &str, xs: &[F], exhaustive: bool, cyc: &[F], plan: &Plan, r
         if t % 4 == 0 {
             out.line(&format!("C02 add {} {} {}", id, a, b), &es(&(x + y)));
             out.line(&format!("C02 sub {} {} {}", id, a, b), &es(&(x - y)));
+        }
+    }
+    // the non-residue hooks on base-field operands
+    for (i, y) in base_pool.iter().enumerate() {
+        let x = base_pool[(3 * i + 1) % base_pool.len()];
+        for (name, two, r) in F::hooks(y, &x) {
+            if two { out.line(&format!("C02 {} {} {} {}", name, id, es(y), es(&x)), &es(&r)); }
+            else { out.line(&format!("C02 {} {} {}", name, id, es(y)), &es(&r)); }
         }
     }
     // from_base_prime_field_elems on lists of several lengths
@@ -614,6 +635,13 @@ pub fn run(rng: &mut Rng, thorough: bool, out: &mut Out, only: &Option<String>) 
     if want(only, "t12_7") { run_fp12::<D12_7>("t12_7", false, "def", "def", &toy12, rng, out); }
     if want(only, "t12_13") { run_fp12::<D12_13>("t12_13", false, "def", "def", &toy12, rng, out); }
 
+    // the guard of the Granger–Scott squaring on arbitrary limb slices
+    if only.is_none() {
+        let mut ls: Vec<Vec<u64>> = vec![vec![], vec![0], vec![1], vec![5], vec![6], vec![7], vec![36, 41], vec![39, 41], vec![1, u64::MAX], vec![u64::MAX; 3], vec![u64::MAX - 4, u64::MAX - 2, 5, 0]];
+        for x in 0..48u64 { ls.push(vec![x]); ls.push(vec![x % 7, x]); }
+        for _ in 0..(if t { 400 } else { 60 }) { let n = 1 + rng.below(13) as usize; ls.push((0..n).map(|_| if rng.below(4) == 0 { EDGE_LIMBS[rng.below(12) as usize] } else { rng.next() }).collect()); }
+        for l in ls { out.line(&format!("C02 charsq6 {}", hex_list_u64(&l)), if ark_ff::characteristic_square_mod_6_is_one(&l) { "1" } else { "0" }); }
+    }
     // defective configurations: panic sites, the `else` branch of the Granger–Scott guard
     if want(only, "r3_7cube") { run_fp3::<R3_7cube>("r3_7cube", true, &tiny, rng, out); }
     if want(only, "r3_7short") { run_fp3::<R3_7short>("r3_7short", true, &tiny, rng, out); }
